@@ -52,7 +52,7 @@ func (s *ServerLedActivationToken) Store(ctx context.Context, storage nodeenroll
 	if opts.WithStorageWrapper != nil {
 		tokenToStore = proto.Clone(s).(*ServerLedActivationToken)
 
-		keyId, err := opts.WithStorageWrapper.KeyId(ctx)
+		keyId, err := storageWrapperKeyId(ctx, opts.WithStorageWrapper)
 		if err != nil {
 			return fmt.Errorf("(%s) error reading wrapper key id: %w", op, err)
 		}
